@@ -8,7 +8,7 @@
   c15.h264  <avc> <npre> <payload>* <nframe> <payload>*
             => panic | ok <n> <res>* <n> <res>*
   c08.h264  <n> <disable>* <calls> => <n> PayObs*      (DisableStapA per call)
-  c09.h264  <avc> <n> <obytes>* => <n> (<res> <isAVC> <head> <tail0> <tail1> <auxPanic> <freshSame> <twinSame>)*
+  c09.h264  <zeroAlloc> <avc> <n> <obytes>* => <n> (<res> <isAVC> <head> <tail0> <tail1> <auxPanic> <freshSame> <twinSame>)*
 -/
 import Driver.Common
 import Rtp.Model.H264Obs
@@ -95,8 +95,9 @@ def c08 : Handler :=
     (fun (_, cs) os => C08.histOk false cs os)
 
 def c09 : Handler :=
-  mkHandler (do let a ← Rd.bool; let ps ← Rd.list Rd.obytes; pure (a, ps)) (Rd.list rdH264DepObs)
-    (fun (a, ps) => c09Calls a [] ps)
+  mkHandler (do let z ← Rd.bool; let a ← Rd.bool; let ps ← Rd.list Rd.obytes; pure (z, a, ps))
+    (Rd.list rdH264DepObs)
+    (fun (z, a, ps) => c09Calls z a [] ps)
     (fun _ os => C09.histOk false os)
 
 def handlers : List (String × Handler) :=
